@@ -374,6 +374,194 @@ fn check_random_tree(t: &mut Tape, ctx: &Ctx) -> Outcome {
     }
 }
 
+// ------------------------------------------------------------------ flat (unparenthesised) operator sequences
+
+#[derive(Clone, Debug)]
+enum FT {
+    Atom(E, String),
+    Un(&'static str),
+    Bi(Bin, &'static str),
+}
+
+const FLAT_BINOPS: &[(Bin, &str)] = &[
+    (Bin::Pow, "^"), (Bin::Mul, "*"), (Bin::Div, "/"), (Bin::IDiv, "\\"), (Bin::Mod, " MOD "), (Bin::Add, "+"), (Bin::Sub, "-"), (Bin::Eq, "="), (Bin::Ne, "<>"), (Bin::Lt, "<"),
+    (Bin::Le, "<="), (Bin::Gt, ">"), (Bin::Ge, ">="), (Bin::And, " AND "), (Bin::Or, " OR "), (Bin::Xor, " XOR "), (Bin::Imp, " IMP "), (Bin::Eqv, " EQV "),
+];
+
+/// Reference parser for a flat token sequence: precedence climbing over the manual's table; a
+/// unary operator takes as its operand everything that binds at least as tightly as itself
+/// (12 for + and -, 6 for NOT), wherever it stands.
+fn flat_parse(toks: &[FT], pos: &mut usize, min_prec: u8) -> Option<E> {
+    let mut lhs = match toks.get(*pos)? {
+        FT::Un(u) => {
+            *pos += 1;
+            let level = if *u == "NOT" { 6 } else { 12 };
+            let operand = flat_parse(toks, pos, level)?;
+            match *u {
+                "-" => E::Neg(Box::new(operand)),
+                "NOT" => E::Not(Box::new(operand)),
+                _ => E::Paren(Box::new(operand)),
+            }
+        }
+        FT::Atom(e, _) => {
+            *pos += 1;
+            e.clone()
+        }
+        FT::Bi(..) => return None,
+    };
+    while let Some(FT::Bi(op, _)) = toks.get(*pos) {
+        let p = op.prec();
+        if p < min_prec {
+            break;
+        }
+        *pos += 1;
+        let rhs = flat_parse(toks, pos, p + 1)?;
+        lhs = E::Bin(*op, Box::new(lhs), Box::new(rhs));
+    }
+    Some(lhs)
+}
+
+fn check_flat(t: &mut Tape, ctx: &Ctx) -> Outcome {
+    let vars: Vec<(Name, Val)> = vec![
+        (Name::new("A%"), Val::Int(t.range(-4, 6) as i16)),
+        (Name::new("B%"), Val::Int(t.range(0, 3) as i16)),
+        (Name::new("C!"), Val::Sng(t.range(-8, 8) as f32 / 2.0)),
+        (Name::new("E#"), Val::Dbl(t.range(-8, 8) as f64 / 4.0)),
+    ];
+    let n = 2 + t.below(5);
+    let mut toks: Vec<FT> = vec![];
+    let mut unary_after_binop = false;
+    for i in 0..n {
+        if i > 0 {
+            let (b, s) = *t.pick(FLAT_BINOPS);
+            toks.push(FT::Bi(b, s));
+        }
+        let nu = *t.pick(&[0usize, 0, 0, 1, 1, 2]);
+        for _ in 0..nu {
+            toks.push(FT::Un(*t.pick(&["-", "-", "NOT", "+"])));
+            if i > 0 {
+                unary_after_binop = true;
+            }
+        }
+        let atom = if t.chance(1, 2) {
+            let l = t.pick(&["0", "1", "2", "3", "2", "3", "4", "5", "7", "2.5", "0.5", "1.5#", "10", "9"]).to_string();
+            FT::Atom(E::Lit(l.clone()), l)
+        } else {
+            let (nm, _) = &vars[t.below(vars.len())];
+            FT::Atom(E::Var(nm.clone()), nm.text().to_string())
+        };
+        toks.push(atom);
+    }
+    // the flat source text: word operators carry their own blanks; a blank keeps two signs apart
+    let mut src = String::new();
+    for tk in &toks {
+        match tk {
+            FT::Atom(_, s) => src.push_str(s),
+            FT::Bi(_, s) => src.push_str(s),
+            FT::Un(u) => {
+                if *u == "NOT" {
+                    src.push_str("NOT ");
+                } else {
+                    if src.ends_with('-') || src.ends_with('+') {
+                        src.push(' ');
+                    }
+                    src.push_str(u);
+                }
+            }
+        }
+    }
+    let mut pos = 0;
+    let tree = match flat_parse(&toks, &mut pos, 0) {
+        Some(e) if pos == toks.len() => e,
+        _ => return Outcome::fail("harness", format!("the reference parser did not consume {:?}", src), src),
+    };
+    let mut env = FlatEnv::new();
+    env.vars = vars.iter().map(|(n, v)| (n.clone(), stored(v))).collect();
+    let mut fl = Flags::default();
+    let want = eval(&tree, &mut env, &mut fl);
+    if fl.fuzzy_eq {
+        return Outcome::discard("float = / <> inside the undocumented tolerance");
+    }
+    let case = format!("{}\nPRINT {}\n(reference grouping: {})", setup_line(&vars), src, render(&tree));
+    let mut term = Term::new();
+    let s0 = run_line(&mut term, &setup_line(&vars));
+    if !s0.is_empty() {
+        return Outcome::fail("setup", format!("setup line printed {:?}", s0), case);
+    }
+    let got = run_line(&mut term, &format!("PRINT {}", src));
+    if let Some(m) = has_panic(&term.log) {
+        return Outcome::fail("panic", m, case);
+    }
+    match &want {
+        Ok(v) => {
+            if !printed_matches(&got, v, fl.approx) {
+                return Outcome::fail("flat-precedence", format!("printed {:?}, the documented grouping {} gives {:?}", got, render(&tree), fmt_num(v)), case);
+            }
+        }
+        Err(f) => {
+            if !matches_fault(&got, f) {
+                return Outcome::fail("flat-precedence", format!("printed {:?}, the documented grouping {} raises {}", got, render(&tree), fault_text(f)), case);
+            }
+        }
+    }
+    let mut labels = vec![];
+    if unary_after_binop {
+        labels.push("a unary operator directly behind a binary operator");
+    }
+    if want.is_err() {
+        labels.push("expression raises a BASIC error");
+    }
+    let o = Outcome::pass(unary_after_binop || n >= 3, hash_str(&case)).with_labels(labels);
+    if ctx.render {
+        o.with_case(case)
+    } else {
+        o
+    }
+}
+
+// ------------------------------------------------------------------ relational operators under operand swap
+
+/// x > y is the same predicate as y < x (and so on), whatever the values are: also for NaN and
+/// infinities, whose ordering the manual leaves open.
+fn check_rel_symmetry(t: &mut Tape, ctx: &Ctx) -> Outcome {
+    let pick = |t: &mut Tape| -> String {
+        match t.below(6) {
+            0 => t.pick(&["(1E38!*10-1E38!*10)", "(1D308*10-1D308*10)", "(1E38!*10)", "(-1E38!*10)", "(1D308*10)"]).to_string(),
+            1 => src_of(&boundary(Ty::Int, t)),
+            2 => src_of(&boundary(Ty::Sng, t)),
+            3 => src_of(&boundary(Ty::Dbl, t)),
+            4 => format!("\"{}\"", t.pick(&["", "A", "B", "AB", "a", "é"])),
+            _ => format!("{}", t.range(-3, 3)),
+        }
+    };
+    let a = pick(t);
+    let b = pick(t);
+    let mut term = Term::new();
+    let mut out = vec![];
+    for (l, r) in [(">", "<"), (">=", "<="), ("<", ">"), ("<=", ">="), ("=", "="), ("<>", "<>")] {
+        let x = run_line(&mut term, &format!("PRINT {}{}{}", a, l, b));
+        let y = run_line(&mut term, &format!("PRINT {}{}{}", b, r, a));
+        if let Some(m) = has_panic(&term.log) {
+            return Outcome::fail("panic", m, format!("{} {} {}", a, l, b));
+        }
+        if x != y {
+            return Outcome::fail("relational-asymmetry", format!("PRINT {}{}{} gives {:?} but PRINT {}{}{} gives {:?}", a, l, b, x, b, r, a, y), format!("{} {} {}", a, l, b));
+        }
+        if !(x == " 0 \n" || x == "-1 \n" || x.starts_with('?')) {
+            return Outcome::fail("relational-not-0-or-minus-1", format!("PRINT {}{}{} gives {:?}", a, l, b, x), format!("{} {} {}", a, l, b));
+        }
+        out.push(x);
+    }
+    let case = format!("{} ? {} -> {:?}", a, b, out);
+    let nan = a.contains("*10") || b.contains("*10");
+    let o = Outcome::pass(true, hash_str(&case)).with_labels(if nan { vec!["NaN or infinity operand"] } else { vec![] });
+    if ctx.render {
+        o.with_case(case)
+    } else {
+        o
+    }
+}
+
 // ------------------------------------------------------------------ operator x type-pair x boundary matrix
 
 fn matrix_values() -> Vec<Val> {
@@ -513,6 +701,8 @@ Transcendentals and float powers are compared within 2 ulp, everything else exac
             Sub::items("literal_typing", gen_literals, check_literal, true),
             Sub::items("operator_matrix", gen_matrix, check_matrix, true),
             Sub::tape("random_trees", check_random_tree, 60_000, 3_000_000, 120),
+            Sub::tape("flat_sequences", check_flat, 150_000, 6_000_000, 60),
+            Sub::tape("relational_symmetry", check_rel_symmetry, 30_000, 1_000_000, 30),
         ],
     }
 }
